@@ -48,10 +48,20 @@ func (s *solo) pumpUntil(what string, cond func() bool) bool {
 }
 
 // macroEmbargo: the application calls a capability of the peer passing one
-// of its own capabilities, pipelines calls on the promised result, the peer
-// returns that very capability, then the application calls it directly.
-// The capability must observe the early (looped-back) calls before the late
-// ones.
+// (or, sibling variant, two) of its own capabilities, pipelines calls on the
+// promised result(s), the peer returns those very capabilities, then the
+// application calls them directly.  Each capability must observe the early
+// (looped-back) calls of a path before the late ones.
+//
+// Sibling variant: two result paths of the same question (two pointer fields
+// of the results struct, e.g. /0 and /1) both resolve to capabilities hosted
+// by the Conn; calls are pipelined on both before the Return and made on both
+// after it.  Each path needs its own embargo and its own Disembargo.
+//
+// In half of the rounds the proxy is slow: it holds the looped-back calls
+// until the Disembargo for their path arrives (solo.holdAns), at the latest
+// until the late calls have been issued.  A path that is not embargoed then
+// shows the overtaking deterministically.
 func (s *solo) macroEmbargo() bool {
 	if s.closed || s.aborted {
 		return false
@@ -67,38 +77,96 @@ func (s *solo) macroEmbargo() bool {
 		return false
 	}
 	h := imps[s.rng.Intn(len(imps))]
-	lh := locs[s.rng.Intn(len(locs))]
-	kind := wEchoParam
-	if s.rng.Chance(1, 4) {
-		kind = wPromiseLoop
+	type epath struct {
+		slot   int
+		lh     *rpcbench.Handle
+		kind   int
+		path   []int
+		ops    []capnp.PipelineOp
+		key    int
+		nEarly int
+		nLate  int
+		hcap   *rpcbench.Handle
+		round  *embargoRound
 	}
+	var paths []*epath
+	sibling := s.rng.Bool()
 	want := &wantRet{deferIt: true}
-	want.slots[0] = wantSlot{kind: kind, paramSlot: 0, copies: 1}
-	a, send := s.newAppCall(h.ID, "handle "+h.Label, []paramCap{{h: lh, slot: 0, copies: 1}}, want)
-	round := &embargoRound{lc: lh.Local}
-	s.rounds = append(s.rounds, round)
-	nEarly, nLate := s.rng.Range(1, 4), s.rng.Range(1, 3)
-	s.step("macro embargo: call uid=%x via %s with local #%d, %d early + %d late calls, kind=%d", a.uid, h.Label, lh.Local.N, nEarly, nLate, kind)
+	var params []paramCap
+	slots := []int{0}
+	if sibling {
+		a := s.rng.Intn(rpcbench.NumPtr)
+		b := (a + 1 + s.rng.Intn(rpcbench.NumPtr-1)) % rpcbench.NumPtr
+		slots = []int{a, b}
+	}
+	for _, slot := range slots {
+		ep := &epath{slot: slot, lh: locs[s.rng.Intn(len(locs))], kind: wEchoParam}
+		if s.rng.Chance(1, 4) && !(sibling && len(paths) == 1 && s.rng.Bool()) {
+			ep.kind = wPromiseLoop
+		}
+		ep.path = []int{slot}
+		ws := wantSlot{kind: ep.kind, paramSlot: slot, copies: 1}
+		if sibling && s.rng.Chance(1, 6) {
+			ws.nested = true
+			ep.path = append(ep.path, 0)
+		}
+		for _, f := range ep.path {
+			ep.ops = append(ep.ops, capnp.PipelineOp{Field: uint16(f)})
+		}
+		want.slots[slot] = ws
+		params = append(params, paramCap{h: ep.lh, slot: slot, copies: 1})
+		ep.nEarly, ep.nLate = s.rng.Range(1, 4), s.rng.Range(1, 3)
+		if sibling {
+			ep.nEarly = s.rng.Range(1, 3)
+		}
+		ep.round = &embargoRound{lc: ep.lh.Local}
+		s.rounds = append(s.rounds, ep.round)
+		paths = append(paths, ep)
+	}
+	a, send := s.newAppCall(h.ID, "handle "+h.Label, params, want)
+	for _, ep := range paths {
+		ep.key = 2000000 + int(a.uid)*8 + ep.slot
+	}
+	slow := s.rng.Bool()
+	if sibling {
+		s.step("macro sibling embargo: call uid=%x via %s with local #%d at %s (%d early + %d late, kind=%d) and local #%d at %s (%d early + %d late, kind=%d) slowProxy=%v", a.uid, h.Label,
+			paths[0].lh.Local.N, pathStr(paths[0].path), paths[0].nEarly, paths[0].nLate, paths[0].kind,
+			paths[1].lh.Local.N, pathStr(paths[1].path), paths[1].nEarly, paths[1].nLate, paths[1].kind, slow)
+	} else {
+		s.step("macro embargo: call uid=%x via %s with local #%d, %d early + %d late calls, kind=%d slowProxy=%v", a.uid, h.Label, paths[0].lh.Local.N, paths[0].nEarly, paths[0].nLate, paths[0].kind, slow)
+	}
 	if !s.issue(a, func(ctx context.Context) (*capnp.Answer, capnp.ReleaseFunc) { return h.C.SendCall(ctx, send) }) {
 		return true
 	}
-	streamKey := 2000000 + int(a.uid)
-	ops := []capnp.PipelineOp{{Field: 0}}
-	mk := func(late bool) (*appCall, capnp.Send) {
-		ac, snd := s.newAppCall(streamKey, fmt.Sprintf("answer of uid=%x/0", a.uid), nil, &wantRet{})
+	mk := func(ep *epath, late bool) (*appCall, capnp.Send) {
+		ac, snd := s.newAppCall(ep.key, fmt.Sprintf("answer of uid=%x%s", a.uid, pathStr(ep.path)), nil, &wantRet{})
 		ac.onCall = a
-		ac.path = []int{0}
-		ac.embargoRound = round
+		ac.path = ep.path
+		ac.embargoRound = ep.round
 		ac.late = late
 		beh := []int{rpcbench.BehReturnNow, rpcbench.BehAckReturn, rpcbench.BehAckReturn, rpcbench.BehExcNow, rpcbench.BehAckBlock}[s.rng.Intn(5)]
 		s.w.Plan(&rpcbench.CallPlan{UID: ac.uid, Behaviour: beh, ObserveCtx: true})
 		return ac, snd
 	}
+	// early calls, the paths interleaved at random
 	var early []*appCall
-	for i := 0; i < nEarly; i++ {
-		ac, snd := mk(false)
+	left := make([]int, len(paths))
+	total := 0
+	for i, ep := range paths {
+		left[i] = ep.nEarly
+		total += ep.nEarly
+	}
+	for ; total > 0; total-- {
+		i := s.rng.Intn(len(paths))
+		if left[i] == 0 {
+			i = (i + 1) % len(paths)
+		}
+		left[i]--
+		ep := paths[i]
+		ac, snd := mk(ep, false)
 		early = append(early, ac)
-		round.early = append(round.early, ac.uid)
+		ep.round.early = append(ep.round.early, ac.uid)
+		ops := ep.ops
 		if !s.issue(ac, func(ctx context.Context) (*capnp.Answer, capnp.ReleaseFunc) { return a.ans.PipelineSend(ctx, ops, snd) }) {
 			return true
 		}
@@ -127,6 +195,15 @@ func (s *solo) macroEmbargo() bool {
 		s.resolveCall(a)
 		return true
 	}
+	if slow {
+		s.holdAns = a.pa
+		defer func() {
+			s.holdAns = nil
+			if !s.dead {
+				s.flushHeld(a.pa, nil)
+			}
+		}()
+	}
 	s.peerReturn(a.pa)
 	if !s.pumpUntil("answer of the embargo-round call", func() bool {
 		select {
@@ -143,31 +220,44 @@ func (s *solo) macroEmbargo() bool {
 		return true
 	}
 	// late calls: through the answer and through the extracted capability
-	var hcap *rpcbench.Handle
-	if s.rng.Bool() {
-		hcap = s.takeResultCap(a, 0)
-	}
 	type lateCall struct {
 		ac   *appCall
 		send capnp.Send
+		ep   *epath
 		via  int
 	}
 	var lates []lateCall
-	for i := 0; i < nLate; i++ {
-		ac, snd := mk(true)
+	total = 0
+	for i, ep := range paths {
+		if s.rng.Bool() {
+			ep.hcap = s.takeResultCap(a, ep.slot)
+		}
+		left[i] = ep.nLate
+		total += ep.nLate
+	}
+	for ; total > 0; total-- {
+		i := s.rng.Intn(len(paths))
+		if left[i] == 0 {
+			i = (i + 1) % len(paths)
+		}
+		left[i]--
+		ep := paths[i]
+		ac, snd := mk(ep, true)
 		atomic.StoreInt32(&ac.pending, 1) // owned by the sender goroutine until issued
-		round.late = append(round.late, ac.uid)
+		ep.round.late = append(ep.round.late, ac.uid)
 		via := 0
-		if hcap != nil && s.rng.Bool() {
+		if ep.hcap != nil && s.rng.Bool() {
 			via = 1
 		}
-		lates = append(lates, lateCall{ac, snd, via})
+		lates = append(lates, lateCall{ac, snd, ep, via})
 	}
 	// one sender goroutine issues them in order; they may block until the
 	// peer answers the Disembargo, which happens in later pumps
 	atomic.StoreInt32(&a.busy, 1)
-	if hcap != nil {
-		s.busyHandle[hcap.ID] = a
+	for _, ep := range paths {
+		if ep.hcap != nil {
+			s.busyHandle[ep.hcap.ID] = a
+		}
 	}
 	s.async("late embargo calls", func() {
 		defer atomic.StoreInt32(&a.busy, 0)
@@ -176,18 +266,26 @@ func (s *solo) macroEmbargo() bool {
 			lc.ac.cancel = cancel
 			lc.ac.sendT0 = s.log.Stamp()
 			if lc.via == 1 {
-				lc.ac.ans, lc.ac.release = hcap.C.SendCall(ctx, lc.send)
+				lc.ac.ans, lc.ac.release = lc.ep.hcap.C.SendCall(ctx, lc.send)
 			} else {
-				lc.ac.ans, lc.ac.release = a.ans.PipelineSend(ctx, ops, lc.send)
+				lc.ac.ans, lc.ac.release = a.ans.PipelineSend(ctx, lc.ep.ops, lc.send)
 			}
 			lc.ac.sendT1 = s.log.Stamp()
 			atomic.StoreInt32(&lc.ac.pending, 0)
 		}
 	})
-	s.count("app_calls_issued", int64(nLate))
+	s.count("app_calls_issued", int64(len(lates)))
 	s.count("embargo_rounds_started", 1)
-	if s.rng.Bool() {
-		// finish the round now; otherwise later steps / teardown do it
+	if sibling {
+		s.count("sibling_embargo_rounds", 1)
+	}
+	if slow {
+		s.count("embargo_rounds_slow_proxy", 1)
+	}
+	if slow || s.rng.Bool() {
+		// finish the round now; otherwise later steps / teardown do it.  (With
+		// the slow proxy the held calls go out, at the latest, once every
+		// late call has been issued: see the deferred flushHeld.)
 		s.pumpUntil("late embargo calls issued", func() bool { return atomic.LoadInt32(&s.asyncN) == 0 })
 	}
 	return true
